@@ -239,8 +239,8 @@ func judge(m *mp.Model, doc *c02.ClassF, rs ruleSet, impl []implPage, seed uint6
 	hasHeight := strings.Contains(doc.HTML, "height:")
 	for i, p := range impl {
 		g := p.geom
-		if math.Abs(g[2]+g[3]+g[4]-g[0]) > geomTol || math.Abs(g[5]+g[6]+g[7]-g[1]) > geomTol {
-			add("page-box-equation", "", fmt.Sprintf("page %d: margins + content != margin box: %v", i, g))
+		if math.Abs(g[2]+g[8]+g[12]+g[3]+g[13]+g[9]+g[4]-g[0]) > geomTol || math.Abs(g[5]+g[10]+g[14]+g[6]+g[15]+g[11]+g[7]-g[1]) > geomTol {
+			add("page-box-equation", "", fmt.Sprintf("page %d: margins + borders + paddings + content != margin box: %v", i, g))
 		}
 		if !hasHeight {
 			ok := false
@@ -303,7 +303,7 @@ func judge(m *mp.Model, doc *c02.ClassF, rs ruleSet, impl []implPage, seed uint6
 
 	// J7: no line extends below the content box when an earlier legal break exists on the page
 	for i, p := range impl {
-		bottom := p.geom[5] + p.geom[6]
+		bottom := p.bottom()
 		for k := 1; k < len(p.lines); k++ {
 			if p.lines[k].Y+20 <= bottom+geomTol {
 				continue
@@ -325,7 +325,7 @@ func judge(m *mp.Model, doc *c02.ClassF, rs ruleSet, impl []implPage, seed uint6
 		if len(p.lines) == 0 {
 			continue
 		}
-		bottom := p.geom[5] + p.geom[6]
+		bottom := p.bottom()
 		for _, b := range p.boxes {
 			if b.borderBottom <= bottom+geomTol {
 				continue
@@ -426,7 +426,7 @@ func judge(m *mp.Model, doc *c02.ClassF, rs ruleSet, impl []implPage, seed uint6
 				forced = true
 			}
 		}
-		req := sx.L(sx.A("page"), sx.I(80), sx.I(i+1), sx.I(int(p.geom[5]*4)), sx.I(int(p.geom[6]*4)), sx.B(forced),
+		req := sx.L(sx.A("page"), sx.I(80), sx.I(i+1), sx.I(int(p.top()*4)), sx.I(int(p.geom[6]*4)), sx.B(forced),
 			truncated(doc.Root, tstar).X(), resumeFor(root, a0))
 		ans, err := m.Ask(req)
 		if err != nil {
@@ -436,7 +436,7 @@ func judge(m *mp.Model, doc *c02.ClassF, rs ruleSet, impl []implPage, seed uint6
 			out.Hit("early-end:model-abort")
 			continue
 		}
-		bottom := p.geom[5] + p.geom[6]
+		bottom := p.bottom()
 		fits := ans.Xs[1].S == "1" && len(ans.Xs[2].Xs) == tstar-a0+1
 		for _, l := range ans.Xs[2].Xs {
 			y, _ := strconv.Atoi(l.Xs[1].S)
@@ -445,18 +445,18 @@ func judge(m *mp.Model, doc *c02.ClassF, rs ruleSet, impl []implPage, seed uint6
 			}
 		}
 		if fits {
-			// classification of the violation: the breakable box that starts with the unit was pushed to the
-			// next page as a whole although all of its lines fit here — only its trailing bottom
-			// margin / padding / border (or that of its last descendants) does not
+			// classification of the violation: some box X around the unit (the paragraph itself or an ancestor)
+			// has a bottom margin / padding / border and all of X's lines would fit on this page — only the
+			// decoration that follows its last line does not.  The code then lays X out a second time with
+			// that decoration reserved below EVERY line (not only the last one), or pushes X whole.
 			key := ""
-			x := paraOf[tb]
-			for x.parent != nil && x.parent.first == tb && x.parent.parent != nil && x.parent.parent.parent != nil {
-				x = x.parent
-			}
-			if w, ok := at[x.last]; ok && w.page > i {
+			for x := paraOf[tb]; x != nil && x.parent != nil && x.parent.parent != nil && key == ""; x = x.parent {
+				if w, ok := at[x.last]; !ok || w.page <= i {
+					continue
+				}
 				tr := truncated(doc.Root, x.last)
-				zeroTrailing(tr, tb, x.last)
-				a2, err := m.Ask(sx.L(sx.A("page"), sx.I(80), sx.I(i+1), sx.I(int(p.geom[5]*4)), sx.I(int(p.geom[6]*4)), sx.B(forced), tr.X(), resumeFor(root, a0)))
+				zeroTrailing(tr, 0, x.last)
+				a2, err := m.Ask(sx.L(sx.A("page"), sx.I(80), sx.I(i+1), sx.I(int(p.top()*4)), sx.I(int(p.geom[6]*4)), sx.B(forced), tr.X(), resumeFor(root, a0)))
 				if err != nil {
 					return err
 				}
@@ -486,6 +486,18 @@ func judge(m *mp.Model, doc *c02.ClassF, rs ruleSet, impl []implPage, seed uint6
 func truncated(b *c02.Box, last int) *c02.Box {
 	st := b.St
 	st.BI, st.BB, st.BA, st.Orph, st.Wid, st.Pg = "auto", "auto", "auto", 1, 1, 0
+	// a box that goes on after the cut is fragmented there: its bottom margin / padding / border are not
+	// on this page (box-decoration-break: slice)
+	var ends func(x *c02.Box) int
+	ends = func(x *c02.Box) int {
+		if x.Lines != nil {
+			return x.Lines[len(x.Lines)-1]
+		}
+		return ends(x.Kids[len(x.Kids)-1])
+	}
+	if ends(b) > last {
+		st.MB, st.PB, st.BBw = 0, 0, 0
+	}
 	nb := &c02.Box{St: st}
 	if b.Lines != nil {
 		nb.Lines = []int{}
